@@ -462,6 +462,11 @@ def build_program(rng: random.Random) -> Tuple[List[str], str]:
         cur.insert(0, f"{rng.randrange(1, 5)} unused thing{rng.randrange(3)}")
     if rng.random() < 0.1:
         cur.insert(0, "2 zest\n1 apple")
+    if rng.random() < 0.12:
+        # unused ingredients with distinct names that render alike (a number in braces vs the same digits as text)
+        v = rng.choice([2, 4, 10, 12])
+        w = rng.choice(["portions for", "slices no", "tray size"])
+        cur.insert(0, f"{rng.randrange(1, 4)} {w} {{{v}}}\n{rng.randrange(4, 7)} {w} {v}")
     return ["\n".join(b) + "\n" for b in blocks], f"{shape}/{goal}"
 
 
@@ -490,6 +495,11 @@ HAND_SCALED = [
     (["1g spam\nfry(1/2 of spam)\nboil(1/4g spam)"], [Fraction(1, 10 ** 7), Fraction(1, 10 ** 9), 1e-9]),
     (["300g flour\nmix(100g flour, 2 eggs)\nbake(200 g flour)"], [Fraction(1, 10 ** 9), Fraction(1, 10 ** 7)]),
     (["4 eggs\nfry(1 eggs)\nboil(3 eggs)"], [Fraction(1, 10 ** 7), 1e-9]),
+    # two unused up-front ingredients whose names are different values but render to the same text at scale 1:
+    # one report each, at every scale
+    (["2 portions for {4}\n3 portions for 4\nfry(1 egg)"], [1, 2, Fraction(1, 2), 3]),
+    (["1 tin {10}cm\n2 tin 10cm\n5g tin {10}\\cm\nbake(1 cake)"], [1, Fraction(3, 2)]),
+    (["100g mix no {0.5}\n200g \"mix no 0.5\"\nsauce = 300g tomatoes, boil\nfry(1/2 of sauce)\nbake(remaining sauce)"], [1, 2]),
 ]
 
 
